@@ -369,3 +369,10 @@ MANIFEST_ENTRY = dict(
     note='Request parsing (regex, KVP) is outside; request objects are stand-ins with the parsed attributes; the tile manager is a recording stub; '
          'grids enumerated.',
 )
+
+# --- manifest text refreshed after rounds 6-8 (obligations added since the entry above was written)
+MANIFEST_ENTRY['text'] = MANIFEST_ENTRY['text'] + ' A dimension value is handed on only if it is literally one of the offered values (any request string up to 5 characters), else the default for an absent/empty/default value, else refused; WMS GetMap pixel limit for symbolic width and height.'
+MANIFEST_ENTRY['note'] = 'Request parsing (regex, KVP) is outside; request objects are stand-ins with the parsed attributes; the tile manager is a recording stub; grids enumerated; dimension strings up to 5 characters (CrossHair).'
+MANIFEST_ENTRY['engine'] = 'E1+E2'
+META['assumptions'] = list(META.get('assumptions', [])) + ['dimension-value obligation (CrossHair): request object is a stand-in exposing .dimensions']
+META['bounds'] = META.get('bounds', '') + '; dimension strings: any string of <= 5 characters'
